@@ -19,8 +19,8 @@ INFO = {
                    "cell, thread-local or static mut in repository code; every `&self` entry point takes the tree by shared reference. "
                    "R18-3 the closures handed to the cfg_iter*/for_each loops of the witness map capture only shared references "
                    "(no &mut, no lock, no atomic): each iteration writes its own item only, so the result cannot depend on the pool size. "
-                   "R18-4 SledDB::new_with_tries: the recursive call passes tries + 1, the `tries >= 10` test precedes every open, "
-                   "recursion happens only on the WouldBlock branch, and the sleep is 10^tries ms (bounded total).",
+                   "R18-4 SledDB::new_with_tries (recursive or counted-loop form): at most 10 attempts, another attempt only after the WouldBlock error, "
+                   "the wait before attempt k+1 is 10^k ms, and Database::new / Database::load start at attempt 0.",
     "not_decided": "deadlock freedom and timing of sled and pmtree internals (their own locks and rayon pools), bit-identity across pool "
                    "sizes of third-party parallel code, and behaviour under actual contention (dynamic)",
     "assumptions": ["Send/Sync auto-trait checking by rustc; arkworks' parallel iterators are deterministic given independent items"],
@@ -135,45 +135,85 @@ def check_parallel(ctx, fb):
     ctx.floor("parallel-closures", len(cls), 4)
 
 
+def strip_widen(t):
+    """u64::from(x) / x as u64 -> x"""
+    while isinstance(t, tuple) and t:
+        if t[0] == "cast":
+            t = t[2]
+        elif t[0] == "call" and re.search(r"convert::(From|Into)<.*>::(from|into)$|::from$|::into$", t[1]) and len(t[2]) == 1:
+            t = t[2][0]
+        else:
+            break
+    return t
+
+
 def check_retry(ctx, fb):
+    """open-with-retry contract, in either of its two shapes (recursion on a counter parameter, or a counted loop):
+    at most 10 attempts; another attempt only after the WouldBlock error; the k-th wait is 10^k ms; the first attempt is k = 0"""
     it = fb.need("zerokit_utils::pm_tree::sled_adapter::SledDB::new_with_tries")
     ctx.touch(it)
     eng = Engine(fb, inline=lambda i: False)
     paths = eng.run(it)
-    rec = 0
     ok = True
     why = ""
+    retries = 0
+    form = None
     for p in paths:
         opens = p.calls(r"sled::Config::open$|sled::config::Config::open$")
         selfc = p.calls(r"SledDB::new_with_tries$")
+        counter = None
+        # recursion form: the counter is the second parameter, guarded by `tries >= N` before every open
         guard = [(a, v) for a, v in p.conds() if a[0] == "b" and a[1][0] == "bin" and a[1][2] == P(2) and a[1][1] in ("Ge", "Gt", "Lt", "Le")]
-        if opens:
+        # loop form: the counter is the item of `for k in 0..N`
+        items = [a[1] for a, v in p.conds() if a[0] == "ok" and v is True and range_var(("unwrap", a[1])) is not None]
+        if items:
+            lo, hi = range_var(("unwrap", items[0]))
+            form = "loop"
+            counter = ("unwrap", items[0])
+            bounded = cint(lo) == 0 and cint(hi) is not None and cint(hi) <= 10
+            if opens and not bounded:
+                ok, why = False, "attempts are counted over %s..%s, specification 0..10" % (sh(lo, 30), sh(hi, 30))
+        elif opens:
+            form = form or "recursion"
+            counter = P(2)
             g = guard[0] if guard else None
             bounded = g is not None and ((g[0][1][1] == "Ge" and g[1] is False) or (g[0][1][1] == "Lt" and g[1] is True)) and cint(g[0][1][3]) is not None and cint(g[0][1][3]) <= 10
             if not bounded:
                 ok, why = False, "the store is opened on a path not dominated by `tries < 10` (guard: %s)" % (sh(g[0], 60) if g else None)
+        again = bool(selfc) or (p.kind == "backedge" and bool(opens))
+        if len(opens) > 1:
+            ok, why = False, "the store is opened twice on one path without passing the attempt counter"
         for c in selfc:
-            rec += 1
-            if c[2][1] != ("bin", "Add", P(2), mk_const("u32", 1)):
-                ok, why = False, "recursive call passes %s, specification tries + 1" % sh(c[2][1], 60)
+            if len(c[2]) < 2 or c[2][1] != ("bin", "Add", P(2), mk_const("u32", 1)):
+                ok, why = False, "recursive call passes %s, specification tries + 1" % sh(c[2][1:], 60)
+        if again:
+            retries += 1
             wb = [(a, v) for a, v in p.conds() if a[0] == "b" and a[1][0] == "call" and a[1][1].endswith("::contains") and any(x == ("str", "WouldBlock") for x in a[1][2])]
             if not (wb and wb[-1][1] is True):
-                ok, why = False, "retry is not restricted to the WouldBlock error"
+                ok, why = False, "another attempt is made after an error other than WouldBlock"
             sl_ = p.calls(r"std::thread::sleep$")
-            if sl_:
+            if len(sl_) != 1:
+                ok, why = False, "a retry path sleeps %d times, specification once (10^k ms)" % len(sl_)
+            else:
                 d = sl_[0][2][0]
-                if not (d[0] == "call" and d[1].endswith("Duration::from_millis") and d[2][0][0] == "call" and d[2][0][1].endswith("::pow") and cint(d[2][0][2][0]) == 10 and d[2][0][2][1] == P(2)):
-                    ok, why = False, "sleep duration is %s, specification 10^tries ms" % sh(d, 100)
-    ctx.check(ok and rec == 1, "R18-4", "new_with_tries", "at most 10 attempts: tries+1 on WouldBlock only, `tries >= 10` precedes every open, sleep 10^tries ms",
-              why or "expected exactly one recursive call site, found %d" % rec, loc(it))
-    nw = fb.one(r"SledDB as (vacp2p_)?pmtree::Database>::new$")
-    ctx.touch(nw)
-    e2 = Engine(fb, inline=lambda i: False)
-    starts = set()
-    for p in e2.run(nw):
-        for c in p.calls(r"SledDB::new_with_tries$"):
-            starts.add(c[2][1])
-    ctx.check(starts == {mk_const("u32", 0)}, "R18-4", "retry starts at 0", "Database::new calls new_with_tries(config, 0)", "retry counter starts at %s" % [sh(s, 40) for s in starts], loc(nw))
+                arg = d[2][0] if (d[0] == "call" and d[1].endswith("Duration::from_millis") and d[2]) else None
+                good = (isinstance(arg, tuple) and arg and arg[0] == "call" and arg[1].endswith("::pow") and len(arg[2]) == 2
+                        and cint(strip_widen(arg[2][0])) == 10 and strip_widen(arg[2][1]) == counter)
+                if not good:
+                    ok, why = False, "the wait before attempt k+1 is %s, specification from_millis(10^k) with k the attempt counter: the total time the opener keeps trying changes" % sh(d, 140)
+    ctx.check(ok and retries == 1, "R18-4", "new_with_tries", "%s form: at most 10 attempts, another attempt on WouldBlock only, wait 10^k ms before attempt k+1" % form,
+              why or "expected exactly one retry site, found %d" % retries, loc(it))
+    for rx, nm in [(r"SledDB as (vacp2p_)?pmtree::Database>::new$", "new"), (r"SledDB as (vacp2p_)?pmtree::Database>::load$", "load")]:
+        nw = fb.one(rx)
+        ctx.touch(nw)
+        e2 = Engine(fb, inline=lambda i: False)
+        starts = set()
+        for p in e2.run(nw):
+            for c in p.calls(r"SledDB::new_with_tries$"):
+                starts.add(c[2][1] if len(c[2]) > 1 else None)
+        want = {None} if form == "loop" else {mk_const("u32", 0)}
+        ctx.check(starts == want, "R18-4", "retry starts at 0 (Database::%s)" % nm, "Database::%s opens through new_with_tries starting at attempt 0" % nm,
+                  "retry counter starts at %s" % [sh(s, 40) for s in starts], loc(nw))
 
 
 def run(ctx):
